@@ -34,7 +34,7 @@ def Eff (s s' : St) : Prop :=
 
 /-- closes the conjunction of `Eff` once the witnesses are given and the projections simplified -/
 macro "eff_close" : tactic => `(tactic|
-  (and_intros <;>
+  ((try dsimp only) <;> and_intros <;>
     first
     | trivial
     | omega
@@ -75,6 +75,130 @@ theorem stakeCore_eff {s s' : St} {c orig amount : Nat} {v : Bool} {adds : List 
       genSt_supply, genSt_reserve, genCache_reserve, genCache_supply, St.cache, St.flush, genTot, genCut,
       Bool.false_eq_true, if_false, if_true] at hres hbal hc ⊢
     eff_close
+
+
+theorem claimBase_spec {s : St} {c orig : Nat} {pays : List Pay} {m : ClaimMid}
+    (h : claimBase s c orig pays = some m) :
+    s.accumulated ≤ s.capacity ∧ genCut s (genTot s) ≤ genTot s ∧
+    m.s1 = genSt s ∧ m.c1 = genCache s s.cache := by
+  simp only [claimBase, Option.bind_eq_bind, Option.bind_eq_some_iff, req_eq_some,
+    Option.pure_def, Option.some.injEq] at h
+  obtain ⟨hold0, _, _, _, p, _, first, _, ⟨s1, c1⟩, hg, tok, _, r, _, ut1, _, merged, _, rfl⟩ := h
+  obtain ⟨ha, hc, rfl, rfl⟩ := generate_spec hg
+  exact ⟨ha, hc, rfl, rfl⟩
+
+theorem claimCore_eff {s s' : St} {c orig : Nat} {pays : List Pay} {nv : Option Nat} {o : Out}
+    (h : claimCore s c orig pays nv = some (s', o)) : Eff s s' := by
+  simp only [claimCore, Option.bind_eq_bind, Option.bind_eq_some_iff] at h
+  obtain ⟨m, hm, h⟩ := h
+  obtain ⟨ha, hc, e1, e2⟩ := claimBase_spec hm
+  cases nv with
+  | none =>
+    simp only [claimFinish, Option.bind_eq_bind, Option.bind_eq_some_iff, req_eq_some,
+      sub?_eq_some, Option.pure_def, Option.some.injEq, Prod.mk.injEq, Option.getD_none,
+      newSupply, newUserTotal] at h
+    obtain ⟨res1, ⟨hres, rfl⟩, sup1, rfl, ut2, rfl, _, _, w2, _, bal1, ⟨hbal, rfl⟩, rfl, _⟩ := h
+    rw [e1] at hbal ⊢
+    rw [e2] at hres ⊢
+    refine ⟨_, _, m.base, m.boosted, 0, 0, Or.inr ⟨ha, rfl, rfl⟩, hc, ?_⟩
+    eff_simp at hres hbal hc ⊢
+    eff_close
+  | some x =>
+    simp only [claimFinish, Option.bind_eq_bind, Option.bind_eq_some_iff, req_eq_some,
+      sub?_eq_some, Option.pure_def, Option.some.injEq, Prod.mk.injEq, Option.getD_some,
+      Option.map_eq_some_iff, newSupply, newUserTotal] at h
+    obtain ⟨res1, ⟨hres, rfl⟩, sup1, ⟨v1, ⟨hsup, rfl⟩, rfl⟩, ut2, ⟨v2, ⟨hut, rfl⟩, rfl⟩, _, _, w2, _,
+      bal1, ⟨hbal, rfl⟩, rfl, _⟩ := h
+    rw [e1] at hbal ⊢
+    rw [e2] at hres hsup ⊢
+    refine ⟨_, _, m.base, m.boosted, 0, 0, Or.inr ⟨ha, rfl, rfl⟩, hc, ?_⟩
+    eff_simp at hres hbal hc hsup ⊢
+    eff_close
+
+theorem compound_eff {s s' : St} {c : Nat} {pays : List Pay} {o : Out}
+    (h : compound s c pays = some (s', o)) : Eff s s' := by
+  simp only [compound, Option.bind_eq_bind, Option.bind_eq_some_iff, req_eq_some,
+    sub?_eq_some, Option.pure_def, Option.some.injEq, Prod.mk.injEq] at h
+  obtain ⟨hold0, _, _, _, p, _, first, _, ⟨s1, c1⟩, hg, tok, _, r, _, res1, ⟨hres, rfl⟩, ut1, _,
+    merged, _, rfl, _⟩ := h
+  obtain ⟨ha, hc, rfl, rfl⟩ := generate_spec hg
+  refine ⟨_, _, baseReward (genCache s s.cache) s.dsc p.2 tok, r.2.2, 0, 0, Or.inr ⟨ha, rfl, rfl⟩, hc, ?_⟩
+  eff_simp at hres hc ⊢
+  eff_close
+
+theorem unstakeCore_eff {s s' : St} {c orig : Nat} {pay : Pay} {x : Option Nat} {o : Out}
+    (h : unstakeCore s c orig pay x = some (s', o)) : Eff s s' := by
+  cases x <;>
+  · simp only [unstakeCore, Option.bind_eq_bind, Option.bind_eq_some_iff, req_eq_some,
+      sub?_eq_some, Option.pure_def, Option.some.injEq, Prod.mk.injEq, Option.getD_none, Option.getD_some] at h
+    obtain ⟨_, _, hold0, _, _, _, attrs, _, ⟨s1, c1⟩, hg, tok, _, r, _, res1, ⟨hres, rfl⟩,
+      sup1, ⟨hsup, rfl⟩, w2, _, bal1, ⟨hbal, rfl⟩, rfl, _⟩ := h
+    obtain ⟨ha, hc, rfl, rfl⟩ := generate_spec hg
+    refine ⟨_, _, baseReward (genCache s s.cache) s.dsc pay.2 tok, r.2.2, 0, 0, Or.inr ⟨ha, rfl, rfl⟩, hc, ?_⟩
+    eff_simp at hres hbal hsup hc ⊢
+    eff_close
+
+theorem unbondFarm_eff {s s' : St} {c : Nat} {pay : Pay} {o : Out}
+    (h : unbondFarm s c pay = some (s', o)) : Eff s s' := by
+  simp only [unbondFarm, Option.bind_eq_bind, Option.bind_eq_some_iff, req_eq_some,
+    sub?_eq_some, Option.pure_def, Option.some.injEq, Prod.mk.injEq] at h
+  obtain ⟨hold0, _, _, _, unlock, _, _, _, bal1, ⟨hbal, rfl⟩, rfl, _⟩ := h
+  refine ⟨0, 0, 0, 0, 0, 0, Or.inl ⟨rfl, rfl⟩, Nat.le_refl _, ?_⟩
+  eff_close
+
+theorem mergeTokens_eff {s s' : St} {c : Nat} {pays : List Pay} {o : Out}
+    (h : mergeTokens s c pays = some (s', o)) : Eff s s' := by
+  simp only [mergeTokens, Option.bind_eq_bind, Option.bind_eq_some_iff, req_eq_some,
+    sub?_eq_some, Option.pure_def, Option.some.injEq, Prod.mk.injEq] at h
+  obtain ⟨hold0, _, _, _, r, _, res1, ⟨hres, rfl⟩, p, _, ut1, _, first, _, part, _, merged, _,
+    bal1, ⟨hbal, rfl⟩, rfl, _⟩ := h
+  refine ⟨0, 0, 0, r.2.2, 0, 0, Or.inl ⟨rfl, rfl⟩, Nat.le_refl _, ?_⟩
+  eff_close
+
+theorem calcRewards_eff {s s' : St} {q : Bool} {amt : Nat} {t : Attrs} {v : Nat}
+    (h : calcRewards s q amt t = some (s', v)) : Eff s s' := by
+  simp only [calcRewards, Option.bind_eq_bind, Option.bind_eq_some_iff, req_eq_some,
+    Option.pure_def, Option.some.injEq, Prod.mk.injEq] at h
+  obtain ⟨_, _, ⟨s1, c1⟩, hg, r, _, rfl, _⟩ := h
+  obtain ⟨ha, hc, rfl, rfl⟩ := generate_spec hg
+  refine ⟨_, _, 0, 0, 0, 0, Or.inr ⟨ha, rfl, rfl⟩, hc, ?_⟩
+  eff_simp at hc ⊢
+  eff_close
+
+theorem topUp_eff {s s' : St} {x : Nat} {o : Out} (h : topUp s x = some (s', o)) : Eff s s' := by
+  simp only [topUp, Option.bind_eq_bind, Option.bind_eq_some_iff, req_eq_some,
+    Option.pure_def, Option.some.injEq, Prod.mk.injEq] at h
+  obtain ⟨_, _, rfl, _⟩ := h
+  refine ⟨0, 0, 0, 0, x, 0, Or.inl ⟨rfl, rfl⟩, Nat.le_refl _, ?_⟩
+  eff_close
+
+theorem withdraw_eff {s s' : St} {x : Nat} {o : Out} (h : withdraw s x = some (s', o)) : Eff s s' := by
+  simp only [withdraw, Option.bind_eq_bind, Option.bind_eq_some_iff, req_eq_some,
+    sub?_eq_some, Option.pure_def, Option.some.injEq, Prod.mk.injEq] at h
+  obtain ⟨⟨s1, c1⟩, hg, rem, ⟨hrem, rfl⟩, _, hx, cap, ⟨hcap, rfl⟩, bal1, ⟨hbal, rfl⟩, rfl, _⟩ := h
+  obtain ⟨ha, hc, rfl, rfl⟩ := generate_spec hg
+  refine ⟨_, _, 0, 0, 0, x, Or.inr ⟨ha, rfl, rfl⟩, hc, ?_⟩
+  eff_simp at hrem hx hcap hbal hc ⊢
+  eff_close
+
+theorem settleThen_eff {s s' : St} {f : St → St} {o : Out}
+    (hf : ∀ t, (f t).accumulated = t.accumulated ∧ (f t).baseBudget = t.baseBudget ∧
+      (f t).boostedBudget = t.boostedBudget ∧ (f t).paidBase = t.paidBase ∧
+      (f t).paidBoosted = t.paidBoosted ∧ (f t).reserve = t.reserve ∧ (f t).capacity = t.capacity ∧
+      (f t).bal = t.bal ∧ (f t).virt = t.virt ∧ (f t).supply = t.supply ∧
+      (f t).unbondOut = t.unbondOut ∧ (f t).firstWeek = t.firstWeek ∧ (f t).epoch = t.epoch)
+    (hp : ∀ t, t.boostedPct ≤ MAX_PERCENT → (f t).boostedPct ≤ MAX_PERCENT)
+    (h : settleThen s f = some (s', o)) : Eff s s' := by
+  simp only [settleThen, Option.bind_eq_bind, Option.bind_eq_some_iff,
+    Option.pure_def, Option.some.injEq, Prod.mk.injEq] at h
+  obtain ⟨⟨s1, c1⟩, hg, rfl, _⟩ := h
+  obtain ⟨ha, hc, rfl, rfl⟩ := generate_spec hg
+  obtain ⟨f1, f2, f3, f4, f5, f6, f7, f8, f9, f10, f11, f12, f13⟩ := hf ((genSt s).flush (genCache s s.cache))
+  have hp' := hp ((genSt s).flush (genCache s s.cache))
+  refine ⟨_, _, 0, 0, 0, 0, Or.inr ⟨ha, rfl, rfl⟩, hc, ?_⟩
+  rw [f1, f2, f3, f4, f5, f6, f7, f8, f9, f10, f11, f12, f13]
+  eff_simp at hc hp' ⊢
+  and_intros <;> first | trivial | omega | exact hp' | exact Or.inl trivial
 
 
 end Mx.Staking
